@@ -17,7 +17,7 @@ import (
 )
 
 var recModel = kit.NewRecorder("C04", "model",
-	"stateful history of <= 30 steps over 3-5 trapping processes on one node: link / unlink / monitor / demonitor by pid, registered name, alias and event; register / unregister name; create / delete alias; register / unregister event; spawn with LinkChild / LinkParent; terminate a process (normal, error, panic, Kill, exit signal); every step is executed inside the acting process; "+
+	"stateful history of <= 30 steps over 3-5 trapping processes on one node: link / unlink / monitor / demonitor by pid, registered name, alias and event; register / unregister name; create / delete alias; register / unregister event; spawn with LinkChild / LinkParent (one in four with an Init that fails); terminate a process (normal, error, panic, Kill, exit signal); every step is executed inside the acting process; "+
 		"oracle: a model relation set updated from the returned values; whenever a target identity disappears every live requester holding a relation on it receives exactly one exit (link) or down (monitor) message naming that identity with the right reason, nobody else receives anything, and the target manager's content equals the model at the end; "+
 		"non-trivial = an identity disappeared while >= 1 relation pointed at it; distinct by history")
 
@@ -67,6 +67,25 @@ type world struct {
 }
 
 func (w *world) tkey(target any) string { return fmt.Sprintf("%T:%v", target, target) }
+
+var errInitFails = errors.New("init fails")
+
+// spawnFailing: the parent spawns a child (with the link options) whose Init fails. Nothing
+// comes into existence, so no relation does either and nobody is notified of anything.
+func (w *world) spawnFailing(parent int, linkChild, linkParent bool) {
+	cfg := &kit.ActorConfig{Label: "stillborn", Probe: w.probe, Trap: true, Quiet: true,
+		OnInit: func(a *kit.Actor, args ...any) error { return errInitFails }}
+	var serr error
+	var pid gen.PID
+	if e := kit.InProc(w.node, w.procs[parent].pid, func(a *kit.Actor) {
+		pid, serr = a.Spawn(kit.Factory(cfg), gen.ProcessOptions{LinkChild: linkChild, LinkParent: linkParent})
+	}); e != nil {
+		w.t.Fatalf("inproc p%d: %v (history %v)", parent, e, w.hist)
+	}
+	if serr == nil {
+		w.t.Fatalf("spawn of a process whose Init fails returned %v without an error (history %v)", pid, w.hist)
+	}
+}
 
 func (w *world) spawn(parent int, linkChild, linkParent bool) *mproc {
 	idx := len(w.procs)
@@ -409,6 +428,11 @@ func propModel(t *rapid.T) {
 				continue
 			}
 			lc, lp := arg&1 == 1, arg&2 == 2
+			if rapid.IntRange(0, 3).Draw(t, "init_fails") == 0 {
+				w.spawnFailing(i, lc, lp)
+				w.hist = append(w.hist, fmt.Sprintf("p%d.spawn(init fails,linkchild=%v,linkparent=%v)", i, lc, lp))
+				continue
+			}
 			c := w.spawn(i, lc, lp)
 			w.hist = append(w.hist, fmt.Sprintf("p%d.spawn(p%d,linkchild=%v,linkparent=%v)", i, c.idx, lc, lp))
 		case 11: // terminate j
